@@ -57,7 +57,16 @@ fn variants(t: &mut Tape, b: &Lzma2Built, full: bool) -> Vec<(Vec<u8>, &'static 
                 v.push((m, "csize_lowered", format!("chunk {}: compressed size {} -> {}", ci, p, np)));
             }
             // declared uncompressed size +- 1, +- many
-            let mut us = vec![u - 1, u + 1, u - 7, u + 300, u / 2, u + 65536, 1, u + 2];
+            // bytes produced since the last dictionary reset before this chunk: a
+            // decoder that mixes up "chunk size" and "window position" is off by this
+            let mut before = 0i64;
+            for prev in b.chunks[..ci].iter() {
+                if prev.ctrl == 1 || prev.ctrl >= 0xE0 {
+                    before = 0;
+                }
+                before += prev.unpacked_len as i64;
+            }
+            let mut us = vec![u - 1, u + 1, u - 7, u + 300, u / 2, u + 65536, 1, u + 2, u - before, u + before];
             us.retain(|x| *x >= 1 && *x != u && *x <= (1 << 21));
             us.sort();
             us.dedup();
@@ -101,6 +110,20 @@ fn exec_one(sc: &Scenario, ctx: &mut Ctx) -> Vec<Violation> {
     ctx.begin(sc);
     let ep = sc.i("ep");
     let input = sc.b("input");
+    if sc.note.starts_with("unmodified") {
+        let mut out = Vec::new();
+        let mut r: &[u8] = input;
+        let v = call_decoder(EP_LZMA2, &mut r, &mut out, &OptSpec::default(), &RawSpec::default());
+        if !v.is_ok() || out != sc.b("expect") {
+            return vec![Violation::new(
+                "rejects_valid_stream",
+                "unmodified",
+                format!("well-formed chunk sequence: {} with {} of {} bytes", v.short(), out.len(), sc.b("expect").len()),
+                sc,
+            )];
+        }
+        return Vec::new();
+    }
     let mut out = Vec::new();
     let mut r: &[u8] = input;
     let v = call_decoder(ep, &mut r, &mut out, &OptSpec::default(), &RawSpec::default());
@@ -197,6 +220,26 @@ impl Property for C17 {
         }
         let full = ctx.tier == Tier::Thorough;
         let ep = [EP_LZMA2, EP_LZMA2, EP_RAW_LZMA2, EP_XZ][t.below(4) as usize];
+        // the unmodified sequence must be accepted (sanity of the generator and
+        // of the framing code on a well-formed stream)
+        {
+            let mut out = Vec::new();
+            let mut r: &[u8] = &b.bytes;
+            let v = call_decoder(EP_LZMA2, &mut r, &mut out, &OptSpec::default(), &RawSpec::default());
+            if !v.is_ok() || out != b.expect {
+                let mut sc = Scenario::new("c17");
+                sc.set_i("ep", EP_LZMA2);
+                sc.set_b("input", b.bytes.clone());
+                sc.set_b("expect", b.expect.clone());
+                sc.note = format!("unmodified | valid chunk sequence | chunks: {}", b.note);
+                return vec![Violation::new(
+                    "rejects_valid_stream",
+                    "unmodified",
+                    format!("well-formed chunk sequence ({}): {} with {} of {} bytes", b.note, v.short(), out.len(), b.expect.len()),
+                    &sc,
+                )];
+            }
+        }
         for (bytes, kind, note) in variants(t, &b, full) {
             let mut sc = Scenario::new("c17");
             sc.set_i("ep", ep);
